@@ -24,6 +24,11 @@ BAD = (
     _s({"type": "object", "properties": {"e": {"type": "string", "enum": ["p"]}, "bad": {"type": "array"}}}),
     _s({"oneOf": [{"type": "string", "enum": ["u"]}, {"type": "array"}]}),
     _s({"allOf": [{"$ref": "#/components/schemas/Good0"}, {"$ref": "#/components/schemas/Missing"}]}),
+    _s({"allOf": [{"$ref": "#/components/schemas/Good1"}, {"type": "object", "properties": {"z": {"type": "string"}}}]}),  # allOf of a non-object
+    _s({"type": "object", "additionalProperties": {"type": "array"}}),
+    _s({"type": "object", "properties": {"l": {"type": "array", "items": {"type": "array"}}}}),
+    _s({"type": "object", "properties": {"e": {"type": "string", "enum": ["a"], "default": "b"}}}),
+    _s({"allOf": [{"type": "object", "properties": {"p": {"type": "string"}}}, {"type": "object", "properties": {"p": {"type": "integer"}}}]}),
 )
 GOOD = (
     ("Good0", _s({"type": "object", "properties": {"g": {"type": "integer"}}})),
@@ -40,7 +45,7 @@ def _pick(pool, i):
 
 def failed_step_keeps_classes(n_good: int, bad: int, as_component: bool) -> bool:
     """
-    pre: 0 <= n_good <= 2 and 0 <= bad < 8
+    pre: 0 <= n_good <= 2 and 0 <= bad < 13
     post: _
     """
     schemas = build_schemas(components={k: v for k, v in GOOD[:n_good]}, schemas=Schemas(), config=CFG)
@@ -82,14 +87,17 @@ def _perm(items, p):
 SHARED = {"type": "object", "properties": {"s": {"type": "string"}}}
 LATE = {"type": "object", "properties": {"uses": {"$ref": "#/components/schemas/Shared"}, "n": {"type": "integer"}}}
 LATE_LIST = {"type": "object", "properties": {"many": {"type": "array", "items": {"$ref": "#/components/schemas/Shared"}}}}
-BAD_PIECES = ({"type": "array"}, {"$ref": "#/components/schemas/Missing"}, {"type": "integer", "default": "zz"})
+BAD_PIECES = (
+    {"type": "array"}, {"$ref": "#/components/schemas/Missing"}, {"type": "integer", "default": "zz"},
+    {"type": "array", "items": {"type": "array"}}, {"oneOf": [{"type": "array"}, {"type": "string"}]}, {"type": "string", "enum": ["a"], "default": "b"}, {"allOf": [{"$ref": "#/components/schemas/Missing"}]},
+)
 
 
 def only_the_failing_model_is_removed(order: int, bad_first: bool, bad_kind: int, late_kind: bool) -> bool:
     """
     A failing model takes only itself (and its dependants) out: a healthy model that merely references the same
     shared schema survives, whatever the declaration order and wherever the bad piece sits inside the failing model.
-    pre: 0 <= order < 6 and 0 <= bad_kind < 3
+    pre: 0 <= order < 6 and 0 <= bad_kind < 7
     post: _
     """
     bad_piece = _pick(BAD_PIECES, bad_kind)
